@@ -4,4 +4,5 @@ pub mod model;
 pub mod node;
 pub mod props;
 pub mod runner;
+pub mod server;
 pub mod util;
